@@ -319,7 +319,7 @@ def run_lattice(ctx: Ctx) -> None:
                            "the integer indices, there are exactly n of them, all inside [-1, 1]; points(axes) equals T[GRID->axes] "
                            "of the indices (exact arithmetic; the float32 arange count for n up to 4096 is not decided)")
     ctx.rule("T1.lattice-symbolic", "coords(): for symbolic n > 1 the arange(start, stop, step) arguments satisfy step = scale and "
-                                    "start = offset of T[GRID->cube] and (stop - start)/step - (n - 1) is a constant in (0, 1]")
+                                    "start = offset of T[GRID->cube] and (stop - start)/step - (n - 1) is a constant in [1/100, 99/100] (n samples for every n, robust to rounding)")
     sizes2 = [(1, 1), (2, 3), (4, 1), (5, 6), (3, 2)]
     sizes3 = [(2, 3, 4), (1, 5, 2), (3, 1, 1)]
     for D, sizes in ((2, sizes2), (3, sizes3)):
@@ -425,8 +425,11 @@ def run_lattice(ctx: Ctx) -> None:
                 b_ = to_rat(m[axis, 2].flat()[0])
                 nn = at["n"][axis]
                 cnt = (stop - start) / step - (nn - 1)
-                ok = step.equals(a_) and start.equals(b_) and cnt.is_const() and 0 < cnt.const_value() <= 1
-                return ok, f"arange(start={start}, stop={stop}, step={step}); map scale {a_} offset {b_}; (stop-start)/step-(n-1) = {cnt}"
+                # the end point must lie strictly between two lattice points, with a margin: an end point that coincides with a
+                # lattice point in exact arithmetic gives n or n +- 1 samples depending on floating-point rounding
+                ok = step.equals(a_) and start.equals(b_) and cnt.is_const() and Fraction(1, 100) <= cnt.const_value() <= Fraction(99, 100)
+                return ok, (f"arange(start={start}, stop={stop}, step={step}); map scale {a_} offset {b_}; (stop-start)/step-(n-1) = {cnt} "
+                            f"(must be a constant in [1/100, 99/100] so that the number of samples is n for every n regardless of rounding)")
             _guard(ctx, "T1.lattice-symbolic", f"align_corners={ac}:axis={axis}", fC, f"arange axis={axis} align_corners={ac}", sym)
         ctx.require(len(captured) == 2, "coords() no longer builds its lattice with torch.arange (anchor vanished)")
 
@@ -512,3 +515,41 @@ def run_cube(ctx: Ctx) -> None:
                 return teq(m, mg), f"Grid.cube() map {tstr(m)[:100]} vs grid cube map {tstr(mg)[:100]}"
             _guard(ctx, "T1.cube", f"{tag}:grid-cube:align_corners={ac}", prog.func("deepali.core.grid", "Grid.cube"),
                    f"grid.cube align_corners={ac} {tag}", gc)
+
+
+# --------------------------------------------------------------------------- grids with singleton axes (single slice / single row)
+def run_singleton(ctx: Ctx) -> None:
+    """The ITK convention on grids that have an axis with exactly one sample (size 1): (n - 1)/2 = 0 on that axis."""
+    prog = ctx.prog
+    Grid = prog.cls("deepali.core.grid", "Grid")
+    fO = prog.func("deepali.core.grid", "Grid.origin")
+    ctx.rule("T1.itk-singleton", "on grids with singleton axes (sizes (7,5,1), (1,5,4), (9,1), (1,1)) with symbolic spacing, center and rotation: "
+                                 "origin() = c - R diag(s) (n-1)/2, GRID->WORLD = o + R diag(s) i, origin_(o) is the inverse re-parameterisation "
+                                 "and both construction routes (origin=, center=) agree")
+    for size in ((7, 5, 1), (1, 5, 4), (9, 1), (1, 1), (1, 6)):
+        def th(size=size):
+            reset_relations()
+            facts = fresh_facts()
+            it = make_interp(ctx)
+            D = len(size)
+            s = [Rat.atom(f"s{i}") for i in range(D)]
+            c = [Rat.atom(f"c{i}") for i in range(D)]
+            for x in s:
+                facts.declare_positive(x)
+            R = rotation(D, "")
+            g = it.new(Grid, size=size, spacing=STensor.from_flat(s, [D]), center=STensor.from_flat(c, [D]), direction=R)
+            RS = symt.matmul(R, symt.diag(STensor.from_flat(s, [D])))
+            half = STensor.from_flat([Fraction(n - 1, 2) for n in size], [D])
+            o_ref = STensor.from_flat(c, [D]).sub(symt.matmul(RS, half.unsqueeze(1)).squeeze(1))
+            o = it.method(g, "origin")
+            if not teq(o, o_ref):
+                return False, f"size={size}: origin() = {tstr(o)[:120]} is not c - R diag(s) (n-1)/2 = {tstr(o_ref)[:120]}"
+            Axes = prog.cls("deepali.core.grid", "Axes")
+            m = as_h(it.method(g, "transform", it.enum(Axes, "GRID"), it.enum(Axes, "WORLD")))
+            if not teq(m, symt.cat([RS, o_ref.unsqueeze(1)], dim=1)):
+                return False, f"size={size}: GRID->WORLD is not o + R diag(s) i"
+            g3 = it.new(Grid, size=size, spacing=STensor.from_flat(s, [D]), origin=o_ref, direction=R)
+            if not teq(it.method(g3, "center"), STensor.from_flat(c, [D])) or not teq(it.method(g3, "origin"), o_ref):
+                return False, f"size={size}: Grid(origin=o) does not reproduce the center / origin"
+            return True, ""
+        _guard(ctx, "T1.itk-singleton", f"size={size}", fO, f"size={size}", th)
